@@ -20,7 +20,7 @@ needs = (m.group(1).strip()[:1200] if m else "see description.md")
 meta = {"property": pid, "mutation": int(n), "breaks": "see description.md", "needs_to_manifest": needs,
         "confirmed_by_me": {"how": "tools/confirm_seed.sh %s %s in a scratch worktree (/tmp/seed_%s): demo on clean code, apply patch, cargo test --workspace --offline, demo with the patch, revert" % (pid, n, pid),
                             "result": conf},
-        "checks_run": "tools/seedtest.sh <patch> <label> %s  (git -C /repo apply; ./check.py %s --tier quick; git -C /repo checkout -- .)" % (pid, pid),
+        "checks_run": "tools/seedtest2.sh <patch> <label> %s  (patch applied to a scratch worktree of /repo; VERIF_REPO=<worktree> ./check.py %s --tier quick; worktree removed)" % (pid, pid),
         "detected": detected, "note": note}
 json.dump(meta, open(dst + "/meta.json", "w"), indent=1)
 print("kept", dst)
